@@ -10,7 +10,9 @@
       unfold    Coq `unfold_cont`  vs parser._unfold_continuations
       dedent    Coq `dedent_block` vs parser.dedent_block on the blocks inspect_utils.getimmediatesource returns
       safe      Coq guard `unfold_safe` vs the harness' classifier
-      lambda    Coq `select` over the generated tables vs parser._parse_lambda (which lambda / raises)
+      lambda    Coq `select_in_file` over the generated tables (decision rules, span comparison, signature components,
+                text normalisation of parse()) and the file's own candidate table + number of leading
+                whitespace-only lines vs parser._parse_lambda (which lambda / raises)
  4. property-level oracle on the real code: generated modules are written to build/tmp/<pid>/, imported, and
     for every function object  ast.dump(parse_entity(f, ())[0])  is compared with ast.dump of the FunctionDef
     that CPython compiled for it (found by co_name / co_firstlineno in ast.parse of the module text); for every
@@ -173,6 +175,11 @@ def lambda_table(tree, intern):
                 lid += 1
         nodes.append((getattr(top, 'lineno', 0), lams))
     return nodes
+
+
+def lead_lines(text):
+    """number of newline characters in the leading whitespace run of a file text (= the lines str.lstrip drops)"""
+    return text[:len(text) - len(text.lstrip())].count('\n')
 
 
 def coq_names(l):
@@ -338,17 +345,21 @@ class Harness(object):
         spec = ([], [self.intern(x) for x in fs.args], [self.intern(fs.varargs)] if fs.varargs else [],
                 [self.intern(fs.varkw)] if fs.varkw else [], [self.intern(x) for x in fs.kwonlyargs])
         found_id = None
+        lead = lead_lines(ctx.get('module_source', ''))
         if got is not None:
-            hits = [lid for top in table for (lid, minl, maxl, sig, n) in top[1]
+            # which lambda of the file was returned: by text and columns; the line span only separates equal texts
+            hits = [(lid, minl <= d <= maxl) for top in table for (lid, minl, maxl, sig, n) in top[1]
                     if n.col_offset == got.col_offset and n.end_col_offset == got.end_col_offset
-                    and n.lineno - minl == got.lineno and ast.dump(n) == res and minl <= d <= maxl]
-            found_id = hits[0] if len(hits) == 1 else -1
+                    and n.lineno - minl == got.lineno and ast.dump(n) == res]
+            if len(hits) > 1:
+                hits = [h for h in hits if h[1]]
+            found_id = hits[0][0] if len(hits) == 1 else -1
         if raised or got is not None:
             nodes = '[%s]' % '; '.join('(%d, [%s])' % (ln, '; '.join(
                 'mklam %d %d %d %s' % (lid, minl, min(maxl, 100000), coq_sig(sig)) for (lid, minl, maxl, sig, n) in lams))
-                for ln, lams in table if ln <= d + 3)
+                for ln, lams in table if ln <= d + 3 + lead)
             exp = 'None' if raised else '(Some %d)' % (found_id if found_id >= 0 else 99999)
-            self.add_case('CLam', '%s %d %s %s' % (nodes, d, coq_sig(spec), exp),
+            self.add_case('CLam', '%d %s %d %s %s' % (lead, nodes, d, coq_sig(spec), exp),
                           ('lambda', ctx.get('module'), key, d, 'raised' if raised else found_id))
         if raised:
             self.stats['lambda_raised'] += 1
@@ -356,6 +367,9 @@ class Harness(object):
         if res == ast.dump(want):
             self.stats['lam_ok'] += 1
             self.run.nontriv(('lam', len([1 for top in table for l in top[1] if l[1] <= d <= l[2]]), res[:40]))
+            if lead:
+                self.stats['lambdas_in_files_with_leading_blank_lines'] = \
+                    self.stats.get('lambdas_in_files_with_leading_blank_lines', 0) + 1
             return
         classify = None
         if want.args.posonlyargs and got is not None:
@@ -535,7 +549,9 @@ def check(run):
     run.rule = ('seeded generated modules (spaces / tabs / mixed indentation, nesting in class/def/if/for/while/with/try, '
                 'comments at any column, blank lines, bracket and backslash continuations, triple-quoted/raw/bytes/f-strings '
                 'with under-indented lines, decorators, multi-line signatures, 1-3 lambdas per line with equal/different '
-                'signatures, nested and multi-line lambdas) + an unsafe stream with the known-finding constructs + corpus; '
+                'signatures, nested and multi-line lambdas; every second module with a file layout: prologue of blank / '
+                'blanks-only / form-feed lines, comment header or docstring before the first statement, trailing blank lines / '
+                'no final newline, columns of 2-4 lambdas on consecutive lines) + an unsafe stream with the known-finding constructs + corpus; '
                 'one evaluation = one function or lambda object judged against CPython\'s own AST; distinct non-trivial = '
                 'distinct block texts / lambda situations')
     tmp = vlib.ensure_dir(os.path.join(vlib.BUILD, 'tmp', str(os.getpid())))
@@ -565,6 +581,7 @@ def _check(run, tmp):
     nmod = 1500 if thorough else 200
     text_budget = [4000 if thorough else 450]
     rnd = random.Random(run.seed)
+    lay = random.Random('c15-layout-%s' % run.seed)
     # corpus first: the witnesses of the known findings and earlier finds
     if os.path.isdir(CORPUS):
         for fn in sorted(os.listdir(CORPUS)):
@@ -575,8 +592,11 @@ def _check(run, tmp):
         style = ['spaces', 'spaces', 'tabs', 'spaces', 'mixed', 'spaces', 'tabs', 'spaces'][i % 8]
         unsafe = (i % 6 == 5)
         seed = rnd.randrange(1 << 30)
-        src, g = c15_gen.gen_module(seed, style=style, unsafe=unsafe, size=rnd.choice([4, 6, 8, 10]))
-        h.do_module(src, {'origin': 'c15_gen.gen_module(%d, style=%r, unsafe=%r)' % (seed, style, unsafe),
+        # every second module also gets a file layout (prologue / epilogue / columns of lambdas on consecutive
+        # lines) from an independent stream: the modules of the main stream keep their text
+        layout = lay.randrange(1 << 30) if i % 2 else None
+        src, g = c15_gen.gen_module(seed, style=style, unsafe=unsafe, size=rnd.choice([4, 6, 8, 10]), layout=layout)
+        h.do_module(src, {'origin': 'c15_gen.gen_module(%d, style=%r, unsafe=%r, layout=%r)' % (seed, style, unsafe, layout),
                           'style': style, 'unsafe': unsafe}, text_budget)
         if i < 4:
             h.text_cases(src, 'module text %d' % i)
@@ -585,9 +605,11 @@ def _check(run, tmp):
     for i in range(nh):
         seed = rnd.randrange(1 << 30)
         style = ['spaces', 'tabs', 'spaces'][i % 3]
-        src, g = c15_gen.gen_module(seed, style=style, unsafe=False, size=rnd.choice([4, 6]))
+        layout = lay.randrange(1 << 30) if i % 2 else None
+        src, g = c15_gen.gen_module(seed, style=style, unsafe=False, size=rnd.choice([4, 6]), layout=layout)
         how = ['reload', 're-import', 'alternate'][i % 3]
-        org = 'history of c15_gen.gen_module(%d, style=%r) edited by c15.edit_same_lines, %s' % (seed, style, how)
+        org = 'history of c15_gen.gen_module(%d, style=%r, layout=%r) edited by c15.edit_same_lines, %s' % (
+            seed, style, layout, how)
         if i % 5 == 4:
             h.do_exec_history(src, {'origin': org, 'style': style}, 3)
         else:
